@@ -205,9 +205,12 @@ def pspace_of(o, key, base_sd, max_len=3, min_len=1, weighted=True):
 
 
 def anyspace(o, key, pspace=True, **kw):
-    """Leaf space, or (sometimes) a power / product space of leaves."""
-    how = o.pick(key + '.how', ('leaf', 'leaf', 'leaf', 'power', 'product')
-                 if pspace else ('leaf',))
+    """Leaf space, or (sometimes) a power / product space of leaves;
+    ``pspace='power'`` admits power spaces only."""
+    how = o.pick(key + '.how',
+                 {True: ('leaf', 'leaf', 'leaf', 'power', 'product'),
+                  'power': ('leaf', 'leaf', 'power'),
+                  False: ('leaf',)}[pspace])
     if how == 'leaf':
         return space(o, key, **kw)
     kw = dict(kw)
@@ -373,7 +376,7 @@ FAMILY_WEIGHTS = collections.OrderedDict([
     ('default', 6), ('ufuncfunc', 2), ('derivative', 3), ('tensor', 5), ('pspace', 5),
     ('diff', 5), ('discr', 4), ('ufunc', 6), ('expr', 8), ('trafo', 4),
     ('deform', 1), ('tomo', 1), ('functional', 5), ('gradient', 4),
-    ('prox', 6), ('funcprox', 5), ('solverblock', 2),
+    ('prox', 6), ('funcprox', 5), ('solverblock', 2), ('large', 1),
 ])
 
 
@@ -480,6 +483,31 @@ def _walk_ops(op, depth=0, seen=None):
                 yield s
 
 
+def param_holder(op, p):
+    """``Class.attribute`` of the (sub-)operator that holds the element ``p``
+    by reference (vector / multiplicand / constant ...), or None if ``p`` is
+    only captured in a closure."""
+    for sub in _walk_ops(op):
+        for attr in ('vector', 'multiplicand', 'constant', 'translation',
+                     'linear_term', 'prior', 'sigma', 'data', 'y', 'shift'):
+            try:
+                if getattr(sub, attr, None) is p:
+                    return '{}.{}'.format(type(sub).__name__, attr)
+            except Exception:  # noqa
+                continue
+        # parameters captured by the closure of a factory-made class
+        fn = type(sub).__dict__.get('_call')
+        cells = getattr(fn, '__closure__', None) or ()
+        for nm, cell in zip(getattr(getattr(fn, '__code__', None),
+                                    'co_freevars', ()), cells):
+            try:
+                if cell.cell_contents is p:
+                    return '{}.{}'.format(type(sub).__name__, nm)
+            except ValueError:
+                continue
+    return None
+
+
 def uses_pyfftw(op):
     return any(getattr(s, 'impl', None) == 'pyfftw' for s in _walk_ops(op))
 
@@ -501,9 +529,9 @@ def region(op, desc):
     opts = desc['op']['opts']
     parts = [desc['op']['entry'], 'ran=' + _space_tag(op.range)]
     n = flat.rdim(op.range) if not isinstance(op.range, Field) else 1
-    parts.append('small' if n < 100 else 'medium')
+    parts.append('small' if n < 100 else ('medium' if n < 50000 else 'large'))
     for k in ('impl', 'halfcomplex', 'parity', 'matshape', 'operand',
-              'kind'):
+              'kind', 'levels'):
         if k in opts:
             parts.append('{}={}'.format(k, opts[k]))
     if 'naxes' in opts:
@@ -1020,10 +1048,31 @@ def _matop_axis(o):
 
 
 def _sampling_points(o, shape):
-    npts = o.pick('npts', st.integers(1, 5))
-    pts = [[o.pick('pt%d_%d' % (a, i), st.integers(0, shape[a] - 1))
-            for i in range(npts)] for a in range(len(shape))]
-    return pts
+    """Sampling index sets: scattered (possibly repeated) points, and the
+    structured sets an implementation may be tempted to turn into slices /
+    views - a full row, a memory-contiguous block of the C-flattened array,
+    the leading range 0..k, a repeated point."""
+    nd = len(shape)
+    size = int(np.prod(shape))
+    pk = o.pick('ptkind', ('scattered', 'scattered', 'row', 'block', 'range',
+                           'repeated'), default='scattered')
+    if pk == 'scattered' or size < 2:
+        npts = o.pick('npts', st.integers(1, 5))
+        return [[o.pick('pt%d_%d' % (a, i), st.integers(0, shape[a] - 1))
+                 for i in range(npts)] for a in range(nd)]
+    if pk == 'repeated':
+        flat_idx = [o.pick('rep', st.integers(0, size - 1))] * 3
+    elif pk == 'range':
+        flat_idx = list(range(o.pick('k', st.integers(2, min(size, 8)))))
+    elif pk == 'row':
+        row = o.pick('row', st.integers(0, size // shape[-1] - 1))
+        flat_idx = list(range(row * shape[-1], (row + 1) * shape[-1]))
+    else:
+        a = o.pick('b0', st.integers(0, size - 2))
+        flat_idx = list(range(a, o.pick('b1', st.integers(a + 2, min(
+            size, a + 9)))))
+    idx = np.unravel_index(np.array(flat_idx, dtype=int), tuple(shape))
+    return [[int(v) for v in ax] for ax in idx]
 
 
 @entry('SamplingOperator', 'tensor', exact=True)
@@ -1920,6 +1969,13 @@ def _wavelet(o):
                          'direct_inverse'))
     axes = _axes_pick(o, len(sd['shape']))
     o.dom = 'mod'
+    if nlev is None:
+        # "maximum number of levels" can be zero for long filters on short
+        # axes: the transform is then the identity (region tag)
+        import pywt
+        ax = range(len(sd['shape'])) if axes is None else axes
+        if pywt.dwtn_max_level([sd['shape'][a] for a in ax], wav) == 0:
+            o.opts['levels'] = 0
 
     def mk():
         sp = B(sd)
@@ -2031,8 +2087,8 @@ def _fspace(o, pspace=True, **kw):
 
 @functional('LpNorm', grad=False)
 def _f_lp(o):
-    # (proj_l1 behind the p=inf proximal needs a tensor space)
-    sd = _fspace(o, pspace=False)
+    # (proj_l1 behind the p=inf proximal works on tensor and power spaces)
+    sd = _fspace(o, pspace='power')
     p = o.pick('p', [1, 2, float('inf'), 1.5, 3])
     return lambda: S.LpNorm(B(sd), p)
 
@@ -2057,7 +2113,7 @@ def _f_l2sq(o):
 
 @functional('LpNorm.inf', classes=['LpNorm'], grad=False)
 def _f_linf(o):
-    sd = _fspace(o, pspace=False)
+    sd = _fspace(o, pspace='power')
     return lambda: S.LpNorm(B(sd), float('inf'))
 
 
@@ -2077,7 +2133,7 @@ def _f_igl1(o):
 
 @functional('IndicatorLpUnitBall', grad=False)
 def _f_ilp(o):
-    sd = _fspace(o, pspace=False)
+    sd = _fspace(o, pspace='power')
     p = o.pick('p', [1, 2, float('inf'), 3])
     return lambda: S.IndicatorLpUnitBall(B(sd), p)
 
@@ -2509,10 +2565,11 @@ _prox_entry('proximal_convex_conj_l2_squared', 'ProximalConvexConjL2Squared',
             elem_ok=True)
 _prox_entry('proximal_l1_l2', 'ProximalL1L2', vf=True)
 _prox_entry('proximal_convex_conj_l1_l2', 'ProximalConvexConjL1L2', vf=True)
-_prox_entry('proximal_linfty', 'ProximalLInfty', pspace=False, g_ok=False,
+# (proj_l1 / proj_simplex work on power spaces, not on general products)
+_prox_entry('proximal_linfty', 'ProximalLInfty', pspace='power', g_ok=False,
             lam_ok=False)
 _prox_entry('proximal_convex_conj_linfty', 'ProximalConvexConjLinfty',
-            pspace=False, g_ok=False, lam_ok=False)
+            pspace='power', g_ok=False, lam_ok=False)
 _prox_entry('proximal_convex_conj_kl', 'ProximalConvexConjKL', pspace=False,
             g_dom='pos')
 _prox_entry('proximal_convex_conj_kl_cross_entropy',
@@ -2564,7 +2621,8 @@ BASE_PROX = ['l1', 'l2', 'l2sq', 'ccl1', 'ccl2sq', 'box', 'linf']
 
 
 def _base_prox_factory(k, sp, lam, g):
-    if isinstance(sp, ProductSpace) and k == 'linf':
+    if isinstance(sp, ProductSpace) and not sp.is_power_space and \
+            k == 'linf':
         k = 'l2'
     return {'l1': lambda: PO.proximal_l1(sp, lam, g),
             'l2': lambda: PO.proximal_l2(sp, lam, g),
@@ -2826,6 +2884,23 @@ def result_shares_memory(op, x):
                for a in _all_leaves(r, op.range) for b in xs)
 
 
+def shares_memory(r, ran, x, dom):
+    """True if the element ``r`` of ``ran`` is ``x`` or shares memory with
+    the element ``x`` of ``dom``."""
+    if isinstance(dom, Field) or isinstance(ran, Field):
+        return False
+    if r is x:
+        return True
+    xs = _all_leaves(x, dom)
+    return any(np.shares_memory(a, b)
+               for a in _all_leaves(r, ran) for b in xs)
+
+
+# entries whose out-of-place result is documented / known to be a view of the
+# argument (np.ravel / np.reshape); for every other catalogue operator the
+# result must not share memory with x
+VIEW_ALLOWED = ('FlatteningOperator',)
+
 _VIEW_POOL = []
 
 
@@ -3044,5 +3119,121 @@ def _alias_expr_oop(o):
             'pwprod': lambda: odl.OperatorPointwiseProduct(V, E),
         }[k]()
         op._verif_oop_operand = V
+        return op
+    return mk
+
+
+# --------------------------------------------------------------------------
+# large tensors: the BLAS regime (>= 50000 entries) of lincomb / assign /
+# multiply, reached through the operators built on them
+
+LARGE_SHAPES = [[50000], [50001], [250, 200], [60000], [300, 200]]
+
+
+@entry('large.lincomb-based', 'large', weight=1,
+       classes=['ScalingOperator', 'IdentityOperator', 'LinCombOperator',
+                'ConstantOperator', 'MultiplyOperator', 'OperatorSum',
+                'ZeroOperator', 'ProximalL2', 'ProximalL2Squared',
+                'ProximalConvexConjL2Squared'])
+def _large(o):
+    shape = o.pick('shape', LARGE_SHAPES)
+    dtype = o.pick('dtype', ('float64', 'float64', 'float32', 'complex128'))
+    kind = o.pick('kind', ('scaling', 'identity', 'lincomb', 'constant',
+                           'multiply', 'sum', 'zero', 'prox_l2',
+                           'prox_l2sq', 'prox_ccl2sq', 'comp', 'lscal'))
+    s = o.scalar('s', nonzero=True)
+    seed = o.seed()
+    o.dom = 'mod'
+    o.opts['large'] = True
+
+    def mk():
+        sp = odl.tensor_space(shape, dtype=dtype)
+        real = sp.is_real
+        if kind.startswith('prox') and not real:
+            sp = odl.rn(shape)
+        v = vec(sp, seed)
+        return {
+            'scaling': lambda: odl.ScalingOperator(sp, s),
+            'identity': lambda: odl.IdentityOperator(sp),
+            'lincomb': lambda: odl.LinCombOperator(sp, s, 1.5),
+            'constant': lambda: odl.ConstantOperator(v),
+            'multiply': lambda: odl.MultiplyOperator(v),
+            'sum': lambda: odl.ScalingOperator(sp, s) +
+            odl.IdentityOperator(sp),
+            'zero': lambda: odl.ZeroOperator(sp),
+            'prox_l2': lambda: PO.proximal_l2(sp, lam=2.0, g=v)(0.7),
+            'prox_l2sq': lambda: PO.proximal_l2_squared(sp, g=v)(abs(s)),
+            'prox_ccl2sq': lambda: PO.proximal_convex_conj_l2_squared(
+                sp, g=v)(abs(s)),
+            'comp': lambda: odl.ScalingOperator(sp, s) *
+            odl.MultiplyOperator(v),
+            'lscal': lambda: s * odl.MultiplyOperator(v),
+        }[kind]()
+    return mk
+
+
+# --------------------------------------------------------------------------
+# compositions whose inner operator returns a view of its argument (C10)
+
+class UserViewOperator(Operator):
+    """User-style operator returning a view: a reshape round trip that wraps
+    the memory of its argument (out-of-place only)."""
+
+    def __init__(self, spc):
+        super(UserViewOperator, self).__init__(spc, spc, linear=True)
+
+    def _call(self, x):
+        return self.range.element(x.asarray().reshape(-1)[:].reshape(
+            self.range.shape))
+
+
+@entry('alias.expr.view-inner', 'solverblock', c03=False, c10=True, weight=6,
+       classes=['OperatorComp'])
+def _alias_view_inner(o):
+    """P * V and P * V * W with a view-returning inner operator V
+    (FlatteningOperator on a one-dimensional space, its inverse, a
+    user-style reshaping operator) and a proximal P."""
+    n = o.pick('n', st.integers(2, 9))
+    sk = o.pick('skind', ('rn', 'discr'))
+    vk = o.pick('V', ('flatten', 'flatten.inverse', 'user'))
+    wk = o.pick('W', ('none', 'none', 'flatten', 'user', 'scale'))
+    pk = o.pick('P', ('l1', 'l1g', 'linf', 'cckl', 'l2sq-elem-g', 'ccl1',
+                      'l2', 'huber', 'box'))
+    sig = o.scalar('sigma', positive=True)
+    seed = o.seed()
+    o.opts['variant'] = '{}*{}{}'.format(pk, vk, '' if wk == 'none'
+                                         else '*' + wk)
+    o.dom = 'mod'
+
+    def mk():
+        sp = odl.rn(n) if sk == 'rn' else odl.uniform_discr(0, 1, n)
+        # FlatteningOperator maps into rn(n): endomorphism only on rn
+        def view(k):
+            if k == 'user' or sk != 'rn':
+                return UserViewOperator(sp)
+            F = odl.FlatteningOperator(sp)
+            return F if k == 'flatten' else F.inverse
+        V = view(vk)
+        if V.range != sp:
+            V = UserViewOperator(sp)
+        g = vec(sp, seed)
+        P = {'l1': lambda: PO.proximal_l1(sp)(sig),
+             'l1g': lambda: PO.proximal_l1(sp, g=g)(sig),
+             'linf': lambda: PO.proximal_linfty(sp)(sig),
+             'cckl': lambda: PO.proximal_convex_conj_kl(sp, g=vec(
+                 sp, seed, 'pos'))(sig),
+             'l2sq-elem-g': lambda: PO.proximal_l2_squared(sp, g=g)(
+                 vec(sp, seed + 1, 'pos')),
+             'ccl1': lambda: PO.proximal_convex_conj_l1(sp)(sig),
+             'l2': lambda: PO.proximal_l2(sp, g=g)(sig),
+             'huber': lambda: PO.proximal_huber(sp, 0.5)(sig),
+             'box': lambda: PO.proximal_box_constraint(sp, -0.5, 1.0)(sig),
+             }[pk]()
+        op = P * V
+        if wk == 'scale':
+            op = op * odl.ScalingOperator(sp, 0.5)
+        elif wk != 'none':
+            op = op * view(wk)
+        op._verif_view_inner = V
         return op
     return mk
